@@ -234,6 +234,14 @@ class ShapeChecker:
             ctx.ob(self.rr, con, f"{path}:range", ok,
                    f"`{pretty(unparse(e))[:60]}` ranges over [{lo}, {hi}] for the inputs of the quantifier; {tname} allows [{rng[0]}, {rng[1]}]"
                    + ("" if ok else " - values outside make the encoder raise (or wrap)"), loc)
+            # a measured value must never land on the element's `unavailable` code point
+            nn = t.get("named-numbers") or {}
+            un = nn.get("unavailable")
+            if ok and isinstance(un, int) and lo < hi:
+                hit = lo <= un <= hi
+                ctx.ob(self.rr, con, f"{path}:codepoint", not hit,
+                       f"computed values [{lo}, {hi}] " + ("include" if hit else "exclude") + f" {un}, the `unavailable` code of {tname}"
+                       + (": an available (e.g. out-of-range) measurement is announced as unavailable" if hit else ""), loc)
             return
         if kind in ("SEQUENCE OF", "SET OF"):
             et = S.resolve(t.get("element", {}), t.get("_module"))
